@@ -683,6 +683,10 @@ def mk_call(fn, args=(), kwargs=()):
             oa = ia.args[1][1].single_atom() if len(ia.args[1]) == 2 else None
             if other == fa.args[0] and oa is not None and oa.kind == 'str' and oa.args[0] == me:
                 return ia.args[1][0]
+    if fn == 'concatenate' and args:
+        xa = args[0].single_atom()
+        if xa is not None and xa.kind == 'list':
+            args = [mk_tuple(xa.args)] + list(args[1:])     # concatenate([a, b]) == concatenate((a, b))
     if fn == 'array' and len(args) == 1 and not kwargs:
         xa = args[0].single_atom()
         if xa is not None and (xa.kind == 'seq' or (xa.kind == 'call' and xa.args[0] in (
@@ -728,9 +732,31 @@ def _round_half_even(c):
     return fl if fl % 2 == 0 else fl + 1
 
 
+FULL_SLICE_KEY = None
+
+
+def _norm_index(idx):
+    """x[a, :] == x[a];  x[(a,)] == x[a]"""
+    global FULL_SLICE_KEY
+    if FULL_SLICE_KEY is None:
+        FULL_SLICE_KEY = mk_slice(NONE, NONE, NONE).key
+    ia = idx.single_atom()
+    if ia is not None and ia.kind == 'tuple':
+        items = list(ia.args)
+        while len(items) > 1 and items[-1].key == FULL_SLICE_KEY:
+            items.pop()
+        if len(items) == 1:
+            return items[0]
+        if len(items) != len(ia.args):
+            return mk_tuple(items)
+    return idx
+
+
 def mk_sub(base, idx):
     """select(base, idx) with store/tuple simplification."""
-    base, idx = lift(base), lift(idx)
+    base, idx = lift(base), _norm_index(lift(idx))
+    if idx.key == FULL_SLICE_KEY:
+        return base                 # x[:] has the same value as x
     at = base.single_atom()
     if at is not None:
         if at.kind in ('tuple', 'list'):
@@ -789,7 +815,13 @@ def mk_attr(base, name):
 
 
 def mk_slice(lo, hi, step):
-    return Term.of(Atom('slice', lift(lo), lift(hi), lift(step)))
+    lo, hi, step = lift(lo), lift(hi), lift(step)
+    sc = step.const()
+    if _isnone(lo) and (_isnone(step) or (sc is not None and sc > 0)):
+        lo = Term.num(0)            # x[:k] == x[0:k]
+    if sc == 1:
+        step = NONE
+    return Term.of(Atom('slice', lo, hi, step))
 
 
 def mk_tuple(items, kind='tuple'):
